@@ -42,8 +42,8 @@ TYPES = {
     "bool": ("bool", "false", ["true"]),
     "char": ("char", "'\\0'", ["'x'", "'é'"]),
     "String": ("String", "String::new()", ['String::from("hi")', 'String::from("é \\"q\\" {}")']),
-    "OptU8": ("Option<u8>", "None", ["Some(3u8)"]),
-    "VecU8": ("Vec<u8>", "Vec::new()", ["vec![1u8, 2u8]"]),
+    "OptU8": ("Option<u8>", "None::<u8>", ["Some(3u8)"]),
+    "VecU8": ("Vec<u8>", "Vec::<u8>::new()", ["vec![1u8, 2u8]"]),
     "Unit": ("()", "()", ["()"]),
     "T": ("T", "0u8", ["9u8", "200u8"]),            # generic parameter, instantiated with u8
     "U": ("U", "String::new()", ['String::from("u")']),  # second generic parameter, instantiated with String
